@@ -42,9 +42,10 @@ DECIDES += (' ROUND 4 — C side: C31-SENTINEL "not found" markers are fresh obj
             '`*name` yields a starred capture, the sign of a numeric literal pattern is kept.')
 NOT_DECIDED += (' ROUND 4 — still not decided: what the generated C does for a concrete subject (the rules decide the shape of the comparison tree and of each helper, not their '
                 'composition at run time); reference counting of sub-subjects; the <3.10 ABC fallback (__Pyx_MatchCase_ABCCheck); type inference of captured names; memoryview '
-                'star captures (MatchCase_Cy.pyx); evaluation order inside one pattern beyond the orders named above. Written but NOT registered (pending findings): C31-NULLPATH '
-                '(FINDING_1: a non-AttributeError failure of a positional attribute lookup reaches Py_DECREF(NULL)), C31-ASBIND (FINDING_3: `case 1.0 as x` binds the literal).')
-MUTANTS_ROUND4 = 'mutants/C31/*: 49 breaking (48 reported, 1 declined: needs the pending C31-NULLPATH) + 8 behaviour-preserving (all silent); first-run figures per wave in /tmp/strengthen4/G12/REPORT.md'
+                'star captures (MatchCase_Cy.pyx); evaluation order inside one pattern beyond the orders named above. Two further rules of this round found genuine defects of the unmodified tree and were armed after the repairs: C31-NULLPATH '
+                '(FINDING_1, repaired in 0d41e88f0: a non-AttributeError failure of a positional attribute lookup reached Py_DECREF(NULL)) and C31-ASBIND (FINDING_3, repaired in '
+                '423ab91e8: `case 1.0 as x` bound the literal instead of the subject).')
+MUTANTS_ROUND4 = 'mutants/C31/*: 49 breaking (49 reported, one of them only since C31-NULLPATH was armed) + 8 behaviour-preserving (all silent); first-run figures per wave in /tmp/strengthen4/G12/REPORT.md'
 
 # Single-edit variants tried on a scratch copy: (file, edit, rule/construct that reported it); all 25 were reported with exit 1.
 MUTATIONS = [
